@@ -176,3 +176,23 @@ PROPS["C10"] = {
     "thorough": {"stages": [{"kind": "replay"}, {"kind": "rc", "procs": 16, "cases": 150000, "maxlen": 300},
                             {"kind": "fuzz", "workers": 16, "seconds": 200, "maxlen": 300}]},
 }
+
+PROPS["C11"] = {
+    "source": "c11_promise.cc",
+    "level": "exploration",
+    "rule": ("choice-stream decoded by construction into a program of 2-28 operations over pools of Promise<int> / Promise<void>: create (pending with a kept Deferred, resolved(v), "
+             "rejected(e_i)); then with a value->value, value->void or value->promise continuation (returned promise already resolved, already rejected, or settled later) and an "
+             "IgnoreException / Throw / recording rejection handler; whenAll (variadic 1-4, and over int / void ranges) and whenAny (1-4) over fully specified inputs; settle of any pending "
+             "base or late promise with a value or exception e_i. Attach and settle interleave freely. A reference interpreter gives each continuation a verdict (runs exactly once with v / "
+             "with e / must not run / unspecified downstream of a swallowed rejection or of a void-returning continuation) and run counts, values and exception identities are compared after "
+             "every operation; an exception escaping a settle/attach call is a failure. Non-trivial = chain length >=2 or a combinator, with >=1 continuation attached before and >=1 after "
+             "settlement; distinct = hash of the program text."),
+    "engine": "rapidcheck+libFuzzer",
+    "technique": "model-based (stateful) property testing with rapidcheck and libFuzzer: generated promise programs run against a reference interpreter of the stated semantics; invariants checked after every step; the whole program shrinks as one value",
+    "level_text": "Generated programs against a reference interpreter written from the statement. Exploration only; single-threaded (interleavings are C12).",
+    "level_note": "Not generated: settling twice, NoExcept, re-entrant attach from inside a continuation, Promise<void>.then(() -> Promise<void>) (does not compile). Derived promises of void-returning continuations and downstream of non-rethrowing handlers are 'unspecified': only at-most-once and never-the-wrong-branch are asserted there.",
+    "assumptions": ["the reference interpreter in harness/c11_promise.cc encodes the statement correctly"],
+    "quick": {"stages": [{"kind": "replay"}, {"kind": "rc", "procs": 8, "cases": 20000, "maxlen": 260}]},
+    "thorough": {"stages": [{"kind": "replay"}, {"kind": "rc", "procs": 16, "cases": 200000, "maxlen": 260},
+                            {"kind": "fuzz", "workers": 16, "seconds": 200, "maxlen": 260}]},
+}
